@@ -81,7 +81,8 @@ fn once(c: &Case) -> Verdict {
             let got: Vec<usize> = guarded(|| g.degree_sequence().collect()).map_err(|p| format!("{name} panicked: {p}"))?;
             // definition: indegree + outdegree, counted in one pass over the arc list
             let mut want = vec![0_usize; c.a.order];
-            for &(u, v) in &c.a.arcs {
+            let distinct: BTreeSet<(usize, usize)> = c.a.arcs.iter().copied().collect();
+            for &(u, v) in &distinct {
                 want[u] += 1;
                 want[v] += 1;
             }
@@ -161,7 +162,12 @@ pub fn miri_cases() -> Vec<Case> {
     let mut out = vec![];
     let empty = MapDg { vertices: vec![0], arcs: vec![] };
     for n in [3_usize, 5, 7] {
-        let ring: Vec<(usize, usize)> = (0..n).map(|i| (i, (i + 1) % n)).chain((2..n).map(|i| (i, 0))).collect();
+        let ring: Vec<(usize, usize)> = (0..n)
+            .map(|i| (i, (i + 1) % n))
+            .chain((2..n).map(|i| (i, 0)))
+            .collect::<BTreeSet<_>>()
+            .into_iter()
+            .collect();
         let (_, complete) = closed_form("complete", n, 0);
         let mut near = complete.clone();
         near.retain(|&e| e != (n - 2, n - 1) && e != (n - 1, n - 2));
